@@ -23,8 +23,22 @@ def scenario(rng):
                 put_hook=rng.random() < 0.3)
 
 
+def receipt_scenario(rng):
+    """messages that the SMSC accepts, followed by delivery receipts (C02)"""
+    n = rng.randrange(1, 6)
+    msgs = []
+    for i in range(n):
+        msgs.append(dict(at=round(rng.uniform(0.2, 8.0), 3), log='L%d' % (i + 1), seg=rng.random() < 0.4,
+                         react=rng.choice(('ok', 'ok', 'ok', 'slow')),
+                         rcpt=rng.choice(('prompt', 'prompt', 'delayed', 'error', 'tlv', 'before-sibling', 'none'))))
+    return dict(msgs=msgs, hook=rng.choice(('none', 'none', 'received', 'sending')), stalls=0, drops=0,
+                seed=rng.randrange(10 ** 9), put_hook=False, receipts=True, unknown=rng.random() < 0.3,
+                duplicate=rng.random() < 0.2)
+
+
 def run(sc):
     sc.pop('_seq_log', None)
+    sc.pop('_ids', None)
     from aiosmpplib.protocol import SubmitSm
     from aiosmpplib.correlator import SimpleCorrelator
     rng = random.Random(sc['seed'])
@@ -58,6 +72,7 @@ def run(sc):
             return m
         s.esme.broker.dequeue = dequeue
         react_of_log = {m['log']: m['react'] for m in sc['msgs']}
+        rcpt_of_log = {m['log']: m.get('rcpt', 'none') for m in sc['msgs']}
         seq_react = {}
 
         # the SMSC decides per submit_sm by the log_id of the message the PDU belongs to (learnt from the sending hook)
@@ -82,14 +97,33 @@ def run(sc):
             r = seq_react.get(seq, 'ok')
             if r == 'silent':
                 return
-            delay = {'late': TTL + 1.5, 'slow': 1.0}.get(r, 0.0)
+            delay = {'late': TTL + 1.5, 'slow': 1.0}.get(r, 0.0) + (seq % 1000) * 1e-6
             if r == 'nack':
                 s.smsc.later(delay, conn.feed, pdu(0x80000000, 3, seq))
             else:
                 st = {'reject': 8, 'throttle': 0x58}.get(r, 0)
                 s.smsc.msgid += 1
-                body = (('id%d' % s.smsc.msgid).encode() + b'\x00') if st == 0 else b'\x00'
+                mid = 'id%d' % s.smsc.msgid
+                body = (mid.encode() + b'\x00') if st == 0 else b'\x00'
                 s.smsc.later(delay, conn.feed, pdu(0x80000004, st, seq, body))
+                if st == 0 and sc.get('receipts'):
+                    plan = rcpt_of_log.get(sc.get('_seq_log', {}).get(seq), 'none')
+                    if plan != 'none':
+                        sc.setdefault('_ids', {})[mid] = sc.get('_seq_log', {}).get(seq)
+                        # never at the very instant of its own response: equal timer deadlines are not ordered
+                        rdelay = delay + {'prompt': 0.2, 'delayed': 3.0, 'error': 0.5, 'tlv': 0.3, 'before-sibling': 0.0001}[plan]
+                        err = 17 if plan == 'error' else 0
+                        if plan == 'tlv':
+                            text = 'sub:001 dlvrd:001 submit date:2501011200 done date:2501011201 stat:DELIVRD err:%03d text:x' % err
+                            extra = struct.pack('!HH', 0x001E, len(mid) + 1) + mid.encode() + b'\x00'
+                        else:
+                            text = 'id:%s sub:001 dlvrd:001 submit date:2501011200 done date:2501011201 stat:DELIVRD err:%03d text:x' % (mid, err)
+                            extra = b''
+                        rb = b'\x00' * 7 + b'\x04' + b'\x00' * 6 + b'\x01\x00' + bytes([len(text)]) + text.encode() + extra
+                        rseq = 70000 + s.smsc.msgid
+                        s.smsc.later(rdelay, conn.feed, pdu(5, 0, rseq, rb))
+                        if sc.get('duplicate') and s.smsc.msgid % 3 == 0:
+                            s.smsc.later(rdelay + 0.7, conn.feed, pdu(5, 0, rseq + 500, rb))
         orig_on_pdu = s.smsc.on_pdu
 
         def on_pdu(conn, p):
@@ -109,6 +143,10 @@ def run(sc):
             s.at(t0 + rng.choice((0.3, 1.0)), lambda: [c.stall(False) for c in s.smsc.conns])
         for _ in range(sc['drops']):
             s.at(round(rng.uniform(1.0, 12.0), 3) + 0.0002, lambda: s.smsc.conns and s.smsc.conns[-1].feed_eof())
+        if sc.get('unknown'):
+            utext = 'id:nosuchid sub:001 dlvrd:001 submit date:2501011200 done date:2501011201 stat:DELIVRD err:000 text:x'
+            ub = b'\x00' * 7 + b'\x04' + b'\x00' * 6 + b'\x01\x00' + bytes([len(utext)]) + utext.encode()
+            s.at(5.0, lambda: s.smsc.conns and s.smsc.conns[-1].feed(pdu(5, 0, 99999, ub)))
         # long enough for every time-out to be noticed: last queueing + slow answer + ttl + two keep-alive periods
         s.at(40.0, s.stop)
         s.run(200)
@@ -159,6 +197,64 @@ def predicate(sc, ev):
                     kind = 'sender-cancelled-mid-message'
             return text, kind
     return None, None
+
+
+def receipt_predicate(sc, ev):
+    """C02 at session level: every delivery receipt handed to the hook carries the identity of the message it reports
+    on (or none, for an unknown id), a message gets at most one attributed receipt, and exactly one when all its
+    segments were accepted and receipted"""
+    ended = [e for e in ev if e[1] == 'start-ended']
+    if not ended or ended[0][2] is not None:
+        return 'start() %s' % ('still running' if not ended else 'ended with %s' % ended[0][2])
+    ids = dict(sc.get('_ids', {}))
+    per_log = {}
+    for e in ev:
+        if e[1] == 'received' and e[2] == 'DeliverSm':
+            raw = e[3]
+            log = e[4]
+            # which id does this PDU talk about?
+            txt = raw.decode('latin-1')
+            mid = None
+            if 'id:' in txt:
+                mid = txt.split('id:', 1)[1].split(' ', 1)[0]
+            else:
+                i = raw.find(b'\x00\x1e')
+                if i >= 0:
+                    ln = struct.unpack('!H', raw[i + 2:i + 4])[0]
+                    mid = raw[i + 4:i + 4 + ln - 1].decode('ascii', 'replace')
+            want = ids.get(mid)
+            if log:
+                per_log.setdefault(log, []).append(mid)
+                if want is None:
+                    return 'a receipt for the unknown id %s was handed over as message %s' % (mid, log)
+                if want != log:
+                    # for a segmented message the receipt reported last may be another segment's (the failing one): same message
+                    return 'the receipt for id %s (message %s) was handed over with log_id %s' % (mid, want, log)
+    for m in sc['msgs']:
+        if m.get('rcpt', 'none') == 'none':
+            continue
+        n = len(per_log.get(m['log'], []))
+        if n > 1 and not sc.get('duplicate'):
+            return 'message %s got %d attributed receipts' % (m['log'], n)
+        if n == 0:
+            return 'message %s (accepted, receipt plan %s%s) never got an attributed receipt' % (
+                m['log'], m['rcpt'], ', segmented' if m['seg'] else '')
+    return None
+
+
+def receipt_case(sc):
+    ev = run(sc)
+    fail = receipt_predicate(sc, ev)
+    pub = {k: v for k, v in sc.items() if not k.startswith('_')}
+    sig = ('session-receipts', sc['hook'], sc['unknown'], sc['duplicate'],
+           tuple(sorted({(m['rcpt'], m['seg']) for m in sc['msgs']}))[:4])
+    line = '# session-receipts %r' % (pub,)
+    return Case(line, line, sig, fail, {'op': 'session-receipts', 'sc': pub})
+
+
+def generate_receipts(rng, n):
+    for _ in range(n):
+        yield receipt_case(receipt_scenario(rng))
 
 
 def case_of(sc):
